@@ -314,6 +314,30 @@ pub fn replay(a: &Args, path: &Path, rep: &mut Report) -> i32 {
 
 /// Run the monitors of property `id` on one explicit case (used by --replay and by the corpus).
 pub fn run_one(id: &str, c: &Case, rep: &mut Report) {
+    if id == "Xdump" {
+        // debugging aid: print the cells and faces of a replayed case
+        println!("case_hash {:016x}", c.hash());
+        if let Ok(b) = build_observed(c, 0, 0) {
+            for (i, cell) in b.v.cells().iter().enumerate() {
+                println!("cell {i} loc {:?} volume {:e} centroid {:?} r_s {:e}", cell.loc(), cell.volume(), cell.centroid(), cell.safety_radius());
+            }
+            for f in b.v.faces() {
+                println!("face {}->{:?} shift {:?} area {:e} centroid {:?} normal {:?}", f.left(), f.right(), f.shift(), f.area(), f.centroid(), f.normal());
+            }
+            if let Ok(k) = std::env::var("VERIF_DUMP_CELL") {
+                let k: usize = k.parse().unwrap();
+                if let Some(cc) = b.vi.get_cell_at(k) {
+                    for (q, v) in cc.vertices.iter().enumerate() {
+                        println!("cell {k} vertex {q} at {:?} dual {:?}", v.loc, v.dual);
+                    }
+                    for (q, hp) in cc.clipping_planes.iter().enumerate() {
+                        println!("cell {k} plane {q} n {:?} p {:?} right {:?}", hp.plane.n, hp.plane.p, hp.right_idx);
+                    }
+                }
+            }
+        }
+        return;
+    }
     if c.family == "zoom" && matches!(id, "C01" | "C06" | "C16" | "Xzoom") {
         crate::p_zoom::one_zoom(id, c, rep);
         return;
@@ -561,4 +585,19 @@ fn c04(a: &Args, rep: &mut Report) {
     giant_cells(a, rep, "C04", &[3000, 12000], &[3000, 12000, 25000, 40000], |c, rep| one_c04("C04", c, rep));
     wedge_cells(a, rep, "C04", 3000, 40000, |c, rep| one_c04("C04", c, rep));
     drum_cells(a, rep, "C04", &DRUM_QUICK, &DRUM_THOROUGH, |c, rep| one_c04("C04", c, rep));
+    // the fixed witnesses of finding F12 (findings/F12-*.json; known finding, matched by input hash + signature)
+    if a.leg.is_none() {
+        let mut files: Vec<_> = std::fs::read_dir(a.verif_dir.join("findings")).map(|d| d.filter_map(|e| e.ok()).map(|e| e.path()).collect()).unwrap_or_default();
+        files.retain(|p: &std::path::PathBuf| p.file_name().and_then(|n| n.to_str()).map_or(false, |n| n.starts_with("F12-") && n.ends_with(".json")));
+        files.sort();
+        for f in files {
+            let Ok(txt) = std::fs::read_to_string(&f) else { continue };
+            let Ok(v) = serde_json::from_str::<serde_json::Value>(&txt) else { continue };
+            let Some(cj) = v.get("case") else { continue };
+            let mut c = Case::from_json(cj);
+            c.origin = format!("findings/{}", f.file_name().unwrap().to_string_lossy());
+            in_pool(|| one_c04("C04", &c, rep));
+            rep.count("f12_witness_inputs", 1);
+        }
+    }
 }
